@@ -357,6 +357,14 @@ def run_unit(unit_path, prop, tier, seed, tag=None):
                                'blocks_changed': rep['changed'], 'merge_conflicts': rep['conflicts']})
         return u
     conflict_blocks = set(c.get('block') for c in rep['conflicts'])
+    # new code without annotations: a closure without a contract gives its caller nothing, a loop without an invariant forgets
+    # everything - a proof that fails in such a function says "needs annotation", not "violates" (UNDECIDED; the witness search may decide)
+    unannotated_blocks = {}
+    for bi in rep['blocks']:
+        ua = bi.get('unannotated')
+        if ua and (ua['merged'][0] > ua['base'][0] or ua['merged'][1] > ua['base'][1]):
+            unannotated_blocks[bi['name']] = 'the changed text has %d closure(s) without a contract and %d loop(s) without an invariant more than the annotated copy' % (
+                max(0, ua['merged'][0] - ua['base'][0]), max(0, ua['merged'][1] - ua['base'][1]))
     uncounted = cost_guard(gen_lines, owner)
     for b, why in uncounted.items():
         u['undecided'].append({'reason': 'uncounted-work', 'detail': '%s: %s' % (b, '; '.join(why[:3])), 'blocks_changed': rep['changed']})
@@ -399,6 +407,11 @@ def run_unit(unit_path, prop, tier, seed, tag=None):
         # fails without its hints is undecided, not a violation (the witness search may still decide it)
         if set(blocks) & set(uncounted):
             continue  # reported above as uncounted-work: the function's cost annotations do not cover the changed text
+        if set(blocks) & set(unannotated_blocks):
+            bn = sorted(set(blocks) & set(unannotated_blocks))[0]
+            u['undecided'].append({'reason': 'unannotated-new-code', 'detail': 'obligation %s of %s fails, but %s' % (', '.join(fail['labels']) or d['message'][:80], bn, unannotated_blocks[bn]),
+                                   'props': fail['props'], 'blocks_changed': rep['changed']})
+            continue
         if set(blocks) & conflict_blocks:
             u['undecided'].append({'reason': 'merge-conflict', 'detail': 'obligation %s of %s fails, but annotations were lost in the merge: %s' % (
                 ', '.join(fail['labels']) or d['message'][:80], ', '.join(blocks), '; '.join(c['text'][:60] for c in rep['conflicts'][:3])),
